@@ -142,6 +142,58 @@ def run_stop_window(sc):
     return [], []
 
 
+def run_repeated_abort(sc):
+    """one STARTED layer, no peer (a multi-frame transmission waits for its Flow Control): send(); stop_sending(); send(); stop_sending(); ...
+    Every stop_sending() must have aborted the transmission by the time it returns - the second one like the first (a completion flag left over
+    from the first request must not let the second return before the worker thread has served it)."""
+    import core
+    import isotp
+    import time
+    import queue
+    core.time.perf_counter_ns = core.REAL_PERF_NS
+    core.time.perf_counter = core.REAL_PERF
+    q = queue.Queue()
+
+    def rxfn(timeout):
+        try:
+            return q.get(timeout=timeout) if timeout and timeout > 0 else q.get_nowait()
+        except queue.Empty:
+            return None
+    addr = isotp.Address(isotp.AddressingMode.Normal_11bits, txid=0x123, rxid=0x456)
+    L = isotp.TransportLayer(rxfn, lambda m: None, addr, None, {'rx_flowcontrol_timeout': 20000, 'blocksize': 0}, read_timeout=sc.get('read_timeout', 0.05))
+    rounds = []
+    L.start()
+    try:
+        for k in range(sc.get('rounds', 3)):
+            if sc.get('rx'):
+                # reception variant: a First Frame opens a reception, stop_receiving() must have closed it when it returns
+                q.put(isotp.CanMessage(arbitration_id=0x456, data=bytes([0x10, 20, 1, 2, 3, 4, 5, 6])))
+                t_end = time.monotonic() + 2
+                while time.monotonic() < t_end and not L.is_rx_active():
+                    time.sleep(0.002)
+                began = L.is_rx_active()
+                t0 = time.monotonic()
+                L.stop_receiving()
+                rounds.append({'began': began, 'still_active': L.is_rx_active(), 'dur': time.monotonic() - t0})
+            else:
+                L.send(bytes(20))
+                t_end = time.monotonic() + 2
+                while time.monotonic() < t_end and L.tx_state == L.TxState.IDLE:
+                    time.sleep(0.002)
+                began = L.tx_state != L.TxState.IDLE
+                t0 = time.monotonic()
+                L.stop_sending()
+                rounds.append({'began': began, 'still_active': L.transmitting(), 'dur': time.monotonic() - t0})
+            time.sleep(sc.get('pause', 0.05))
+    finally:
+        try:
+            L.stop()
+        except Exception:
+            pass
+    sc['_result'] = {'rounds': rounds}
+    return [], []
+
+
 class C12(PropBase):
     id = 'C12'
     address_change = 0.15
@@ -208,10 +260,17 @@ class C12(PropBase):
             # a send() that lands INSIDE stop(): after the worker thread has gone, while stop() still waits for the reading thread
             for k in range(2 if tier == 'quick' else 12):
                 yield {'ops': [], 'stop_window': True, 'no_model': True, 'seed': 9000 + k, 'delay': [0.05, 0.15, 0.25][k % 3], 'blocking': k % 4 != 3}
+        if shard == 1 % nshards:
+            # stop_sending() / stop_receiving() called again and again on one started layer
+            for k in range(2 if tier == 'quick' else 8):
+                yield {'ops': [], 'repeated_abort': True, 'no_model': True, 'seed': 9500 + k, 'rx': k % 2 == 1, 'rounds': 3,
+                       'read_timeout': [0.05, 0.2][k // 2 % 2], 'pause': [0.05, 0.3][k // 4 % 2]}
 
     def run_impl(self, sc):
         if sc.get('stop_window'):
             return run_stop_window(sc)
+        if sc.get('repeated_abort'):
+            return run_repeated_abort(sc)
         if sc.get('threaded'):
             from props import C13 as c13
             return c13.run_threaded(sc)
@@ -231,6 +290,14 @@ class C12(PropBase):
             if res.get('left_queued'):
                 out.append(('exactly_once', 'a request accepted by send() is still queued / active after stop() returned: it never completes'))
             return out
+        if sc.get('repeated_abort'):
+            out = []
+            for k, r in enumerate((sc.get('_result') or {}).get('rounds', [])):
+                if r['began'] and r['still_active']:
+                    what = 'stop_receiving() returned after %.4f s while the reception is still open' if sc.get('rx') else \
+                        'stop_sending() returned after %.4f s while the request it aborts is still being transmitted (no final outcome yet)'
+                    out.append(('abort', ('call %d on the same started layer: ' % (k + 1)) + what % r['dur']))
+            return out[:2]
         if sc.get('threaded'):
             res = sc.get('_result') or {}
             out = []
@@ -271,6 +338,8 @@ class C12(PropBase):
     def nontrivial_key(self, sc, lines_in, impl_out):
         if sc.get('stop_window'):
             return ('stop_window', sc['seed'], sc['delay'])
+        if sc.get('repeated_abort'):
+            return ('repeated_abort', sc['seed'], sc.get('rx'))
         if sc.get('threaded'):
             return ('threaded', sc['transport'], tuple(len(x) for x in sc['senders'][0]), tuple(len(x) for x in sc['senders'][1]), sc['perturb'], sc['seed'])
         shape = []
@@ -285,6 +354,9 @@ class C12(PropBase):
         return (lens, tuple(shape[:30]))
 
     def tally(self, dist, sc, lines_in, impl_out):
+        if sc.get('repeated_abort'):
+            dist['repeated_abort_scenarios'] = dist.get('repeated_abort_scenarios', 0) + 1
+            return
         if sc.get('threaded'):
             dist['threaded_blocking_scenarios'] = dist.get('threaded_blocking_scenarios', 0) + 1
             dist['blocking_send_calls'] = dist.get('blocking_send_calls', 0) + sum(len(x) for s_ in (0, 1) for x in sc['senders'][s_])
